@@ -397,6 +397,10 @@ func mergeCommitObservations(
 			}
 			// Add reports
 			for _, commitReport := range commitReports {
+				// Items are identified by their %v rendering. For a time.Time that includes the location, which
+				// depends on the local time zone of the process and on how the sender spelled the UTC offset
+				// ("Z" vs "+00:00"), so normalize to UTC to make every oracle count the same votes.
+				commitReport.Timestamp = commitReport.Timestamp.UTC()
 				validator.Add(commitReport)
 			}
 		}
